@@ -94,6 +94,9 @@ type vInput struct {
 	Scenarios []vScenario `json:"scenarios"`
 }
 
+// vFill: number of filler keys appended to every service (hammer scenarios of the hand-over harness)
+var vFill = 0
+
 func (u vUniverse) yaml(c vCfg) string {
 	var b strings.Builder
 	if len(c.Legacy) > 0 {
@@ -114,6 +117,10 @@ func (u vUniverse) yaml(c vCfg) string {
 			for _, ki := range s.Ks {
 				k := vKeys[ki]
 				fmt.Fprintf(&b, "      - id: %s\n        cipher: %s\n        secret: %s\n", k.id, k.cipher, k.secret)
+			}
+			// filler keys nobody uses: they only make building the key list of a service take noticeable time
+			for i := 0; i < vFill; i++ {
+				fmt.Fprintf(&b, "      - id: filler-%d\n        cipher: chacha20-ietf-poly1305\n        secret: filler-secret-%d\n", i, i)
 			}
 		}
 	}
